@@ -345,6 +345,16 @@ def c084(ctx):
         ctx.check(R, f, "to-trash", path_class(f, t["args"][0]) == {"SST_FILE"} and path_class(f, t["args"][1]) == {"TRASH_SST"},
                   "orphans are renamed SST_FILE -> TRASH_SST", "orphans are not moved to TRASH_SST", pt=pt)
     ctx.check(R, f, "no-unlink", not P.call_points(f, DEL), "the orphan scan unlinks nothing", "the orphan scan unlinks files")
+    # the scan decides from the manifest alone and ignores reference counts: it may run only while nobody can hold a version,
+    # i.e. from the functions that open the tree (it takes the tree by exclusive reference for the same reason)
+    callers = K.callers_of(ctx, r"lsmtk::tree::LsmTree::cleanup_orphans$", crates=("lsmtk",))
+    opening = {k for k in callers if re.search(r"tree::LsmTree::(open|from_manifest|new)$", k)}
+    ctx.check(R, f, "only-at-open", bool(callers) and set(callers) == opening,
+              "cleanup_orphans is called only while the tree is being opened (%s)" % sorted(P.short(k) for k in callers),
+              "cleanup_orphans is called from %s: at run time a retired file can still be pinned by a cursor or an in-flight read, and the scan moves "
+              "it to trash regardless of its reference count" % sorted(k for k in callers if k not in opening))
+    ctx.check(R, f, "exclusive-receiver", f.locals[1].startswith("&mut "), "cleanup_orphans takes the tree by exclusive reference",
+              "cleanup_orphans no longer requires exclusive access to the tree (receiver type %s)" % f.locals[1])
     # the scan folds fragments in the order list_mani_fragments returns them: rm X in an older fragment is cancelled by add X in a
     # newer one only if older fragments come first, i.e. the fragments are ordered by their backup *number* (MANIFEST.10 after
     # MANIFEST.9), with the live MANIFEST last
